@@ -20,7 +20,7 @@ RULE = ("cadzow: full rectangular site grids 1-4 columns x 4-40 rows in shuffled
         "Non-trivial: grid with >= 2 columns / >= 2 spikes per bin somewhere / >= 2 labels with fold > 1; distinct = distinct (function, shape, "
         "parameters) signature")
 ASSUMPTIONS = ["spike times are sorted (as produced by spike sorters)", "floating point tolerances: identities 1e-10 relative, polynomial reproduction rtol 1e-6"]
-REQUIRED = {"cadzow_np1_identity": 6, "cadzow_identity": 10, "cadzow_planewave": 10, "svd_identity": 10, "smooth_constants": 30, "savgol_polynomials": 30, "savgol_nan": 10,
+REQUIRED = {"smooth_integer_constants": 20, "cadzow_np1_identity": 6, "cadzow_identity": 10, "cadzow_planewave": 10, "svd_identity": 10, "smooth_constants": 30, "savgol_polynomials": 30, "savgol_nan": 10,
             "venn_conservation": 20, "stack_checked": 10}
 CASE_TIMEOUT = 200.0
 
@@ -189,6 +189,12 @@ def run_case(case):
                 res.check(out.shape == (n,), "smooth:lp-length" + (":pad0" if pad == 0 else ""), f"{label}: output length {out.shape}", counter="smooth_constants")
                 if out.shape == (n,):
                     res.check(np.max(np.abs(out - c)) <= 1e-12 * max(1, abs(c)), "smooth:lp-constant", f"{label}: constant {c} becomes {out[:3]}")
+                # constants stored as integers (counts per bin, pixel positions, raw samples): the same constant comes back, whatever type it comes back in
+                ci = int(rng.integers(-300, 300))
+                dti = [np.int64, np.int32, np.int16][int(rng.integers(0, 3))]
+                outi = SM.lp(np.full(n, ci, dtype=dti), fac, pad=pad)
+                res.check(outi.shape == (n,) and np.max(np.abs(np.asarray(outi, np.float64) - ci)) <= 1e-9 * max(1, abs(ci)), "smooth:lp-constant:integer-series",
+                          f"{label}: the {np.dtype(dti).name} constant {ci} becomes {np.unique(outi)[:4]} ({np.asarray(outi).dtype})", counter="smooth_integer_constants")
                 xr = rng.standard_normal(n)
                 res.check(SM.lp(xr, fac, pad=pad).shape == (n,), "smooth:lp-length" + (":pad0" if pad == 0 else ""), f"{label}: random input changes length")
                 sigs.add(("smooth", n // 50))
